@@ -38,6 +38,10 @@ def families(tier):
                                   'modes': ['ok', 'raise_after'], 'mut_paths': ['o/d', 'o/d/g']}, 'weight': 2},
         {'name': 'A8', 'params': {'hist': 'BF', 'kinds': ['is_dir']}},
     ]
+    # a build_file nested below the unfinished output of its enclosing build_file (a corner the reference model does not
+    # describe): only the reference-free obligations - pre-state restored, next build = its twin on the restored pre-state
+    q.append({'name': 'A5c', 'params': {'hist': 'F', 'kinds': ['is_dir'], 'modes': ['ok', 'raise_after'], 'no_reference': True}, 'weight': 1})
+    q.append({'name': 'A5c', 'params': {'hist': 'BF', 'kinds': ['is_dir'], 'modes': ['ok', 'raise_after'], 'no_reference': True}, 'weight': 1})
     q.append({'name': 'backups', 'params': {}, 'weight': 1})
     # '... or while the cache file is being written': an OSError at the open / data write / final rename of the cache write
     q.append({'name': 'cachewrite', 'params': {'skel': 'A3', 'hist': 'X', 'kinds': ['is_dir'], 'roles': ['o'], 'targets': ['o/d/g'],
@@ -179,7 +183,11 @@ def harness(eng, fam, P):
             if step == 'B':
                 nb += 1
                 impl, ref = d.build(prog)
-                d.guard_same('prefix')
+                if P.get('no_reference'):
+                    if impl[0] != 'ok':
+                        return
+                else:
+                    d.guard_same('prefix')
                 desc.append('B->' + impl[0])
             elif step == 'M':
                 desc.append('M%s' % (mutate(eng, w, str(si), P.get('mut_kinds', ['none', 'delete', 'write', 'mkdir', 'rmtree', 'file2dir', 'dir2file']),
@@ -196,7 +204,8 @@ def harness(eng, fam, P):
                 sig = (fam, hist)
                 if impl[0] != 'exc':
                     # the crash point was not reached (function served from the cache or caught): an ordinary build
-                    d.guard_same('nofail')
+                    if not P.get('no_reference'):
+                        d.guard_same('nofail')
                     eng.note('crash-not-reached')
                     return
                 eng.note('nontrivial:crash-fired')
@@ -204,7 +213,9 @@ def harness(eng, fam, P):
                 if isinstance(impl[1], (Crash, Boom)):
                     eng.check('C02.same-exception-object', bool(d.impl_raised) and impl[1] is d.impl_raised[-1], sig,
                               info={'exc': repr(impl[1])})
-                d.check_same('C02.failed', sig)
+                noref = bool(P.get('no_reference'))
+                if not noref:
+                    d.check_same('C02.failed', sig)
                 check_rollback(eng, w, d, pre, prev_created, sig)
                 if d.impl_calls != d.ref_calls:
                     eng.witness('rollback-after-cache-reuse')
@@ -214,7 +225,8 @@ def harness(eng, fam, P):
                     eng.witness('rollback-restored-overwritten-file')
                 # ---- the next build, and its twin on the restored pre-state
                 impl2, ref2 = d.build(prog)
-                d.check_same('C02.next', sig)
+                if not noref:
+                    d.check_same('C02.next', sig)
                 calls2 = list(d.impl_calls)
                 tree2 = w.snap(w.fs)
                 w.restore_impl(saved)
